@@ -117,7 +117,10 @@ def handover_order(ctx, p):
     if el:
         er = el.call_sites('log::Log::end_read')
         ap = lib.sites_reaching(el, APPLIERS, lift=False)
-        ctx.ob(p + 'e enact_logs-anchors', 'anchor', el.path, 'enact_logs has one end_read call and five applier calls', len(er) == 1 and len(ap) >= 5, 'end_read %s appliers %s' % (er, ap))
+        if not ap:
+            ap = lib.sites_reaching(el, APPLIERS)        # the apply loop was moved into a helper: its call site stands for the five
+        napp = len(ap) if len(ap) >= 5 else len(lib.fam_sites(F, el.path, APPLIERS))
+        ctx.ob(p + 'e enact_logs-anchors', 'anchor', el.path, 'enact_logs has one end_read call and five applier calls (in it or in a helper it calls)', len(er) == 1 and napp >= 5, 'end_read %s appliers %s' % (er, ap))
         lib.never_after(ctx, p + 'f no-apply-after-end_read', el, er, ap,
                         'no table write (enact_plan/drop) can follow Log::end_read of the record (log-overlay entries are removed only after the bytes are written)')
         st = [bi for bi, t in el.calls() if call_matches(t, lib.ATOMIC_STORE) and '.DbInner.last_enacted' in lib.receiver_fields(el, t, 0)]
@@ -1008,6 +1011,15 @@ def no_mutual_deferral(ctx, p):
                     for pl in pls:
                         if pl[0] in elem and any(isinstance(e, str) and e in ('.CommitChangeSet.check_for_deferral', '.IndexedChangeSet.node_changes') for e in pl[1:]):
                             looks = True
+    if not found:
+        # iterator form of the scan: `queue.commits.iter().any(|queued| ..)`
+        for b in bodies:
+            for bi, t in b.calls():
+                if bi in b.normal_blocks() and call_matches(t, ['re:Iterator::(any|all|find|find_map|position|for_each|try_for_each|filter)$']) and t['a'] and '.CommitQueue.commits' in lib.receiver_fields(b, t, 0):
+                    found = True
+                    cf = lib.closure_fields(F, lib.closure_operands(b, t))
+                    if '.CommitChangeSet.check_for_deferral' in cf or '.IndexedChangeSet.node_changes' in cf:
+                        looks = True
     ctx.ob(p + 'a queue-scan-anchor', 'anchor', pc.path, 'the deferral decision scans the queued commits', found, '')
     # alternative that makes the cycle impossible: what waits on the queue after a deferral is a changeset built for the purpose that
     # holds the removals only - it carries no used_trees marks, so a waiting commit never makes another one wait
